@@ -186,3 +186,14 @@ def pre_checks(ctx):
                 out.append(("spec-validation:git-write-tree", "git write-tree gives %s, library %s for %s" % (want, got, enc_tree(t)[:300])))
                 break
     return out
+
+
+# functions of /repo whose executed-line coverage by this run is reported in the evidence
+ANCHORS = [('swh/model/from_disk.py', 'mode_to_perms'),
+           ('swh/model/from_disk.py', 'Content.from_file'),
+           ('swh/model/from_disk.py', 'Content.from_symlink'),
+           ('swh/model/from_disk.py', 'Content.from_bytes'),
+           ('swh/model/from_disk.py', 'Directory.from_disk'),
+           ('swh/model/from_disk.py', 'Directory.compute_hash'),
+           ('swh/model/from_disk.py', 'Directory.to_model'),
+           ('swh/model/merkle.py', 'MerkleNode.update_hash')]
